@@ -178,6 +178,20 @@ impl<'a> DocumentSymbolBuilder<'a> {
             };
 
             self.build_child_symbol(&mut lsp_document_symbol, child_symbol);
+            // a symbol's range has to enclose its children (e.g. the table fields of
+            // `a, b = { k = v }, 1` hang below `a`, whose own range is just the name)
+            let child_range = lsp_document_symbol.range;
+            let range = &mut document_symbol.range;
+            if (child_range.start.line, child_range.start.character)
+                < (range.start.line, range.start.character)
+            {
+                range.start = child_range.start;
+            }
+            if (child_range.end.line, child_range.end.character)
+                > (range.end.line, range.end.character)
+            {
+                range.end = child_range.end;
+            }
             document_symbol
                 .children
                 .get_or_insert_with(Vec::new)
